@@ -6,6 +6,7 @@ From FT.lib Require Import Num Arr ArrLemmas Lower NumArr.
 From FT.gen Require Import Common Interp2d Interp3d Vinterp2d Vinterp3d FteikCommon Fteik2d Fteik3d Ray2d Ray3d.
 From FT.model Require Import GridMeta.
 From FT.proofs Require Import GridMetaProofs.
+From FT.proofs Require ApiGenEq.
 Import ListNotations.
 Open Scope R_scope.
 
@@ -38,6 +39,244 @@ Theorem C16_smooth_metadata_unchanged :
   forall (T : Type) (m : meta T), smooth_meta m = m.
 Proof. exact @GridMetaProofs.smooth_meta_unchanged. Qed.
 
+(* extracted from _base.py on every run (gen/ApiGen.v): the new spacing computed by BaseGrid2D.resample is the hand model's a * b / c zipped over (spacing, old shape, new shape), with the old shape read BEFORE the grid is replaced (the extractor rejects the pre-fix order), every numeric instance *)
+Theorem C16_resample_spacing_from_source_2d :
+  forall (T : Type) (N : Num T) (gs : list T) (old new : list Z),
+       ApiGen.resample_gridsize_2d gs old new = resample_gridsize gs old new.
+Proof. exact @ApiGenEq.gen_resample_gridsize_2d_eq. Qed.
+
+(* 3D *)
+Theorem C16_resample_spacing_from_source_3d :
+  forall (T : Type) (N : Num T) (gs : list T) (old new : list Z),
+       ApiGen.resample_gridsize_3d gs old new = resample_gridsize gs old new.
+Proof. exact @ApiGenEq.gen_resample_gridsize_3d_eq. Qed.
+
+(* the argument handed to the Gaussian filter by BaseGrid2D.smooth is sigma / spacing per axis *)
+Theorem C16_smooth_filter_argument_from_source_2d :
+  forall (T : Type) (N : Num T) (sigma gs : list T), ApiGen.smooth_arg_2d sigma gs = smooth_arg sigma gs.
+Proof. exact @ApiGenEq.gen_smooth_arg_2d_eq. Qed.
+
+(* 3D *)
+Theorem C16_smooth_filter_argument_from_source_3d :
+  forall (T : Type) (N : Num T) (sigma gs : list T), ApiGen.smooth_arg_3d sigma gs = smooth_arg sigma gs.
+Proof. exact @ApiGenEq.gen_smooth_arg_3d_eq. Qed.
+
+(* a scalar sigma is broadcast to one value per axis (2) *)
+Theorem C16_smooth_scalar_sigma_broadcast_2d :
+  forall (T : Type) (N : Num T) (s : T) (gs : list T), ApiGen.smooth_arg_scalar_2d s gs = smooth_arg [s; s] gs.
+Proof. exact @ApiGenEq.gen_smooth_arg_scalar_2d_eq. Qed.
+
+(* (3) *)
+Theorem C16_smooth_scalar_sigma_broadcast_3d :
+  forall (T : Type) (N : Num T) (s : T) (gs : list T), ApiGen.smooth_arg_scalar_3d s gs = smooth_arg [s; s; s] gs.
+Proof. exact @ApiGenEq.gen_smooth_arg_scalar_3d_eq. Qed.
+
+(* the statements around them: what resample and smooth assign, in which order *)
+Theorem C16_resample_smooth_statement_context :
+  ApiGen.resample_2d_zip =
+       [(String.String (Ascii.Ascii true false false false false true true false) String.EmptyString,
+         String.String (Ascii.Ascii true true false false true true true false)
+           (String.String (Ascii.Ascii true false true false false true true false)
+              (String.String (Ascii.Ascii false false true true false true true false)
+                 (String.String (Ascii.Ascii false true true false false true true false)
+                    (String.String (Ascii.Ascii false true true true false true false false)
+                       (String.String (Ascii.Ascii true true true false false true true false)
+                          (String.String (Ascii.Ascii false true false false true true true false)
+                             (String.String (Ascii.Ascii true false false true false true true false)
+                                (String.String (Ascii.Ascii false false true false false true true false)
+                                   (String.String (Ascii.Ascii true true false false true true true false)
+                                      (String.String (Ascii.Ascii true false false true false true true false)
+                                         (String.String (Ascii.Ascii false true false true true true true false)
+                                            (String.String (Ascii.Ascii true false true false false true true false)
+                                               String.EmptyString)))))))))))));
+        (String.String (Ascii.Ascii false true false false false true true false) String.EmptyString,
+         String.String (Ascii.Ascii true true true true false true true false)
+           (String.String (Ascii.Ascii false false true true false true true false)
+              (String.String (Ascii.Ascii false false true false false true true false)
+                 (String.String (Ascii.Ascii true true true true true false true false)
+                    (String.String (Ascii.Ascii true true false false true true true false)
+                       (String.String (Ascii.Ascii false false false true false true true false)
+                          (String.String (Ascii.Ascii true false false false false true true false)
+                             (String.String (Ascii.Ascii false false false false true true true false)
+                                (String.String (Ascii.Ascii true false true false false true true false)
+                                   String.EmptyString)))))))));
+        (String.String (Ascii.Ascii true true false false false true true false) String.EmptyString,
+         String.String (Ascii.Ascii false true true true false true true false)
+           (String.String (Ascii.Ascii true false true false false true true false)
+              (String.String (Ascii.Ascii true true true false true true true false)
+                 (String.String (Ascii.Ascii true true true true true false true false)
+                    (String.String (Ascii.Ascii true true false false true true true false)
+                       (String.String (Ascii.Ascii false false false true false true true false)
+                          (String.String (Ascii.Ascii true false false false false true true false)
+                             (String.String (Ascii.Ascii false false false false true true true false)
+                                (String.String (Ascii.Ascii true false true false false true true false)
+                                   String.EmptyString)))))))))] /\
+       ApiGen.resample_3d_zip =
+       [(String.String (Ascii.Ascii true false false false false true true false) String.EmptyString,
+         String.String (Ascii.Ascii true true false false true true true false)
+           (String.String (Ascii.Ascii true false true false false true true false)
+              (String.String (Ascii.Ascii false false true true false true true false)
+                 (String.String (Ascii.Ascii false true true false false true true false)
+                    (String.String (Ascii.Ascii false true true true false true false false)
+                       (String.String (Ascii.Ascii true true true false false true true false)
+                          (String.String (Ascii.Ascii false true false false true true true false)
+                             (String.String (Ascii.Ascii true false false true false true true false)
+                                (String.String (Ascii.Ascii false false true false false true true false)
+                                   (String.String (Ascii.Ascii true true false false true true true false)
+                                      (String.String (Ascii.Ascii true false false true false true true false)
+                                         (String.String (Ascii.Ascii false true false true true true true false)
+                                            (String.String (Ascii.Ascii true false true false false true true false)
+                                               String.EmptyString)))))))))))));
+        (String.String (Ascii.Ascii false true false false false true true false) String.EmptyString,
+         String.String (Ascii.Ascii true true true true false true true false)
+           (String.String (Ascii.Ascii false false true true false true true false)
+              (String.String (Ascii.Ascii false false true false false true true false)
+                 (String.String (Ascii.Ascii true true true true true false true false)
+                    (String.String (Ascii.Ascii true true false false true true true false)
+                       (String.String (Ascii.Ascii false false false true false true true false)
+                          (String.String (Ascii.Ascii true false false false false true true false)
+                             (String.String (Ascii.Ascii false false false false true true true false)
+                                (String.String (Ascii.Ascii true false true false false true true false)
+                                   String.EmptyString)))))))));
+        (String.String (Ascii.Ascii true true false false false true true false) String.EmptyString,
+         String.String (Ascii.Ascii false true true true false true true false)
+           (String.String (Ascii.Ascii true false true false false true true false)
+              (String.String (Ascii.Ascii true true true false true true true false)
+                 (String.String (Ascii.Ascii true true true true true false true false)
+                    (String.String (Ascii.Ascii true true false false true true true false)
+                       (String.String (Ascii.Ascii false false false true false true true false)
+                          (String.String (Ascii.Ascii true false false false false true true false)
+                             (String.String (Ascii.Ascii false false false false true true true false)
+                                (String.String (Ascii.Ascii true false true false false true true false)
+                                   String.EmptyString)))))))))] /\
+       ApiGen.smooth_2d_call =
+       (String.String (Ascii.Ascii true true true false false true true false)
+          (String.String (Ascii.Ascii true false false false false true true false)
+             (String.String (Ascii.Ascii true false true false true true true false)
+                (String.String (Ascii.Ascii true true false false true true true false)
+                   (String.String (Ascii.Ascii true true false false true true true false)
+                      (String.String (Ascii.Ascii true false false true false true true false)
+                         (String.String (Ascii.Ascii true false false false false true true false)
+                            (String.String (Ascii.Ascii false true true true false true true false)
+                               (String.String (Ascii.Ascii true true true true true false true false)
+                                  (String.String (Ascii.Ascii false true true false false true true false)
+                                     (String.String (Ascii.Ascii true false false true false true true false)
+                                        (String.String (Ascii.Ascii false false true true false true true false)
+                                           (String.String (Ascii.Ascii false false true false true true true false)
+                                              (String.String (Ascii.Ascii true false true false false true true false)
+                                                 (String.String
+                                                    (Ascii.Ascii false true false false true true true false)
+                                                    String.EmptyString)))))))))))))),
+        [String.String (Ascii.Ascii true true false false true true true false)
+           (String.String (Ascii.Ascii true false true false false true true false)
+              (String.String (Ascii.Ascii false false true true false true true false)
+                 (String.String (Ascii.Ascii false true true false false true true false)
+                    (String.String (Ascii.Ascii false true true true false true false false)
+                       (String.String (Ascii.Ascii true true true true true false true false)
+                          (String.String (Ascii.Ascii true true true false false true true false)
+                             (String.String (Ascii.Ascii false true false false true true true false)
+                                (String.String (Ascii.Ascii true false false true false true true false)
+                                   (String.String (Ascii.Ascii false false true false false true true false)
+                                      String.EmptyString)))))))));
+         String.String (Ascii.Ascii true true false false true true true false)
+           (String.String (Ascii.Ascii true false false true false true true false)
+              (String.String (Ascii.Ascii true true true false false true true false)
+                 (String.String (Ascii.Ascii true false true true false true true false)
+                    (String.String (Ascii.Ascii true false false false false true true false)
+                       (String.String (Ascii.Ascii false false false false false true false false)
+                          (String.String (Ascii.Ascii true true true true false true false false)
+                             (String.String (Ascii.Ascii false false false false false true false false)
+                                (String.String (Ascii.Ascii true true false false true true true false)
+                                   (String.String (Ascii.Ascii true false true false false true true false)
+                                      (String.String (Ascii.Ascii false false true true false true true false)
+                                         (String.String (Ascii.Ascii false true true false false true true false)
+                                            (String.String (Ascii.Ascii false true true true false true false false)
+                                               (String.String (Ascii.Ascii true true true true true false true false)
+                                                  (String.String
+                                                     (Ascii.Ascii true true true false false true true false)
+                                                     (String.String
+                                                        (Ascii.Ascii false true false false true true true false)
+                                                        (String.String
+                                                           (Ascii.Ascii true false false true false true true false)
+                                                           (String.String
+                                                              (Ascii.Ascii false false true false false true true false)
+                                                              (String.String
+                                                                 (Ascii.Ascii true true false false true true true
+                                                                    false)
+                                                                 (String.String
+                                                                    (Ascii.Ascii true false false true false true true
+                                                                       false)
+                                                                    (String.String
+                                                                       (Ascii.Ascii false true false true true true
+                                                                          true false)
+                                                                       (String.String
+                                                                          (Ascii.Ascii true false true false false true
+                                                                             true false) String.EmptyString)))))))))))))))))))))]) /\
+       ApiGen.smooth_3d_call =
+       (String.String (Ascii.Ascii true true true false false true true false)
+          (String.String (Ascii.Ascii true false false false false true true false)
+             (String.String (Ascii.Ascii true false true false true true true false)
+                (String.String (Ascii.Ascii true true false false true true true false)
+                   (String.String (Ascii.Ascii true true false false true true true false)
+                      (String.String (Ascii.Ascii true false false true false true true false)
+                         (String.String (Ascii.Ascii true false false false false true true false)
+                            (String.String (Ascii.Ascii false true true true false true true false)
+                               (String.String (Ascii.Ascii true true true true true false true false)
+                                  (String.String (Ascii.Ascii false true true false false true true false)
+                                     (String.String (Ascii.Ascii true false false true false true true false)
+                                        (String.String (Ascii.Ascii false false true true false true true false)
+                                           (String.String (Ascii.Ascii false false true false true true true false)
+                                              (String.String (Ascii.Ascii true false true false false true true false)
+                                                 (String.String
+                                                    (Ascii.Ascii false true false false true true true false)
+                                                    String.EmptyString)))))))))))))),
+        [String.String (Ascii.Ascii true true false false true true true false)
+           (String.String (Ascii.Ascii true false true false false true true false)
+              (String.String (Ascii.Ascii false false true true false true true false)
+                 (String.String (Ascii.Ascii false true true false false true true false)
+                    (String.String (Ascii.Ascii false true true true false true false false)
+                       (String.String (Ascii.Ascii true true true true true false true false)
+                          (String.String (Ascii.Ascii true true true false false true true false)
+                             (String.String (Ascii.Ascii false true false false true true true false)
+                                (String.String (Ascii.Ascii true false false true false true true false)
+                                   (String.String (Ascii.Ascii false false true false false true true false)
+                                      String.EmptyString)))))))));
+         String.String (Ascii.Ascii true true false false true true true false)
+           (String.String (Ascii.Ascii true false false true false true true false)
+              (String.String (Ascii.Ascii true true true false false true true false)
+                 (String.String (Ascii.Ascii true false true true false true true false)
+                    (String.String (Ascii.Ascii true false false false false true true false)
+                       (String.String (Ascii.Ascii false false false false false true false false)
+                          (String.String (Ascii.Ascii true true true true false true false false)
+                             (String.String (Ascii.Ascii false false false false false true false false)
+                                (String.String (Ascii.Ascii true true false false true true true false)
+                                   (String.String (Ascii.Ascii true false true false false true true false)
+                                      (String.String (Ascii.Ascii false false true true false true true false)
+                                         (String.String (Ascii.Ascii false true true false false true true false)
+                                            (String.String (Ascii.Ascii false true true true false true false false)
+                                               (String.String (Ascii.Ascii true true true true true false true false)
+                                                  (String.String
+                                                     (Ascii.Ascii true true true false false true true false)
+                                                     (String.String
+                                                        (Ascii.Ascii false true false false true true true false)
+                                                        (String.String
+                                                           (Ascii.Ascii true false false true false true true false)
+                                                           (String.String
+                                                              (Ascii.Ascii false false true false false true true false)
+                                                              (String.String
+                                                                 (Ascii.Ascii true true false false true true true
+                                                                    false)
+                                                                 (String.String
+                                                                    (Ascii.Ascii true false false true false true true
+                                                                       false)
+                                                                    (String.String
+                                                                       (Ascii.Ascii false true false true true true
+                                                                          true false)
+                                                                       (String.String
+                                                                          (Ascii.Ascii true false true false false true
+                                                                             true false) String.EmptyString)))))))))))))))))))))]).
+Proof. exact @ApiGenEq.gen_resample_smooth_context. Qed.
+
 (* non-vacuity and a concrete instance: 3x4 cells with spacing (2,3) resampled to 6x8 gives spacing (1, 3/2) *)
 Example C16_resample_example : resample_gridsize (T:=R) [2; 3] [3%Z; 4%Z] [6%Z; 8%Z] = [2 * 3 / 6; 3 * 4 / 8].
 Proof. reflexivity. Qed.
@@ -46,3 +285,10 @@ Print Assumptions C16_resample_extent_preserved.
 Print Assumptions C16_resample_shape_origin.
 Print Assumptions C16_smooth_sigma_in_length_units.
 Print Assumptions C16_smooth_metadata_unchanged.
+Print Assumptions C16_resample_spacing_from_source_2d.
+Print Assumptions C16_resample_spacing_from_source_3d.
+Print Assumptions C16_smooth_filter_argument_from_source_2d.
+Print Assumptions C16_smooth_filter_argument_from_source_3d.
+Print Assumptions C16_smooth_scalar_sigma_broadcast_2d.
+Print Assumptions C16_smooth_scalar_sigma_broadcast_3d.
+Print Assumptions C16_resample_smooth_statement_context.
